@@ -143,12 +143,76 @@ let do_ho line =
     end
   | _ -> "badcase"
 
+(* ---- Writer / Reader state machines (C01 C04 C05 C08 C09 C11 C17) ----
+   data byte i of the plain stream is (i*7 + i/256) mod 256 on both sides.
+   wr <B> <jobs> <hintBlocks> <failid or 0> ; w <len> | c <marker_fails 0/1> <flush_fails 0/1> ; ...
+      -> per op  W<n>:<ok|err>  /  C:<ok|err> ; then one  [id:len:sum]  per emitted block
+   rd <B> <jobs> <hintBlocks> <from> <to> <nblocks> <lastlen> <badblock or 0> <endmarker 0/1> ; r <len> | c ; ...
+      -> per op  R<n>:<nil|eof|err>:<sum> *)
+let data_byte i = (i * 7 + i / 256) land 255
+let nlist_of_ints l = List.map (fun x -> n_of_zar (Z.of_int x)) l
+let sum_n (l : K.n list) = List.fold_left (fun a x -> (a * 31 + Z.to_int (zar_of_n x)) land 0xFFFFFFF) 7 l
+let do_wr line =
+  match split_on_semis line with
+  | ("wr" :: b :: jobs :: hint :: failid :: _) :: ops ->
+    let bn = ns b and jn = ns jobs and hn = ns hint in
+    let fid = Z.of_string failid in
+    let fails (id : K.n) = Z.sign fid > 0 && Z.equal (zar_of_n id) fid in
+    let st = ref (K.init_w jn) in
+    let closed_ok = ref false in
+    let pos = ref 0 in
+    let out = Buffer.create 256 in
+    List.iter (fun o -> match o with
+      | ["w"; len] ->
+        let len = int_of_string len in
+        let block = nlist_of_ints (List.init len (fun k -> data_byte (!pos + k))) in
+        pos := !pos + len;
+        let ((s', n), err) = K.w_write bn jn hn fails !st block in
+        st := s';
+        Buffer.add_string out (Printf.sprintf "W%s:%s " (sn n) (if err then "err" else "ok"))
+      | ["c"; mf; ff] ->
+        let (s', err) = K.w_close bn jn hn fails !st (mf = "1") (ff = "1") in
+        st := s';
+        closed_ok := not err;
+        Buffer.add_string out (Printf.sprintf "C:%s " (if err then "err" else "ok"))
+      | _ -> ()) ops;
+    (* blocks are only observable in the sink once a Close succeeded *)
+    if !closed_ok then List.iter (fun (id, bs) -> Buffer.add_string out (Printf.sprintf "[%s:%d:%d] " (sn id) (List.length bs) (sum_n bs))) (!st).K.w_out;
+    Buffer.contents out
+  | _ -> "badcase"
+
+let do_rd line =
+  match split_on_semis line with
+  | ("rd" :: b :: jobs :: hint :: from :: to_ :: nblocks :: lastlen :: bad :: endm :: _) :: ops ->
+    let bi = int_of_string b in
+    let nb = int_of_string nblocks and ll = int_of_string lastlen and bad = int_of_string bad in
+    let frames = List.init nb (fun k ->
+        if k + 1 = bad then K.FFail
+        else let len = if k = nb - 1 then ll else bi in
+          K.FData (nlist_of_ints (List.init len (fun j -> data_byte (k * bi + j))))) in
+    let frames = if endm = "1" then frames @ [K.FEnd] else frames in
+    let bn = ns b and jn = ns jobs and hn = ns hint and fr = ns from and tn = ns to_ in
+    let st = ref (K.init_r frames) in
+    let out = Buffer.create 256 in
+    List.iter (fun o -> match o with
+      | ["r"; len] ->
+        let ((s', bs), res) = K.r_read bn jn hn fr tn !st (ns len) in
+        st := s';
+        Buffer.add_string out (Printf.sprintf "R%d:%s:%d " (List.length bs)
+          (match res with K.RNil -> "nil" | K.REOF -> "eof" | K.RErr -> "err") (sum_n bs))
+      | ["c"] -> st := K.close_r !st; Buffer.add_string out "C "
+      | _ -> ()) ops;
+    Buffer.contents out
+  | _ -> "badcase"
+
 let dispatch line =
   match words line with
   | [] -> ""
   | "norm" :: args -> do_norm args
   | "bs" :: _ -> do_bs line
   | "ho" :: _ -> do_ho line
+  | "wr" :: _ -> do_wr line
+  | "rd" :: _ -> do_rd line
   | k :: _ -> "unknown " ^ k
 
 let () =
